@@ -256,11 +256,27 @@ func c03R1(c *Ctx) {
 		}
 		c.Floor("C03.R1", "delivery/control/close sites in "+hn, n, 3)
 		// the packet that is opened is the datagram received, under the session's read key
-		if len(rp.Call.Args) == 4 {
+		{
 			fReadKey := P.Field("transport", "SessionState", "readKey")
-			msgIdx := paramIndex(h, rp.Call.Args[2])
-			keyOK := endsInField(rp.Call.Args[3], fReadKey, false)
-			c.Check(msgIdx >= 0 && keyOK, "C03.R2", hn+"#open-args", P.InstrPos(rp), "opens the received datagram under ss.readKey",
+			// the datagram: a []byte argument that is a parameter of the handler; the key: an argument
+			// that is ss.readKey, or readPacketLocked reads ss.readKey itself
+			msgOK, keyOK := false, false
+			for _, a := range rp.Call.Args {
+				if isByteSlice(a.Type()) && paramIndex(h, a) >= 0 {
+					msgOK = true
+				}
+				if endsInField(a, fReadKey, false) {
+					keyOK = true
+				}
+			}
+			if !keyOK {
+				if rdf := staticCallee(&rp.Call); rdf != nil {
+					if k, ok := sessionKeyIn(P, rdf).(*ssa.UnOp); ok && endsInField(k, fReadKey, false) {
+						keyOK = true
+					}
+				}
+			}
+			c.Check(msgOK && keyOK, "C03.R2", hn+"#open-args", P.InstrPos(rp), "opens the received datagram under ss.readKey",
 				"readPacketLocked is not given the received datagram and the session's readKey")
 		}
 	}
@@ -314,12 +330,15 @@ func c03R2R5(c *Ctx) {
 			for _, ns := range callSitesIn(rd, false, hopID("kravatte", "", "NewSANSE")) {
 				if nc, ok := ns.(*ssa.Call); ok && len(nc.Call.Args) == 1 {
 					root, _ := accessPath(nc.Call.Args[0])
-					if paramIndex(rd, root) == 3 {
+					if k := sessionKeyIn(P, rd); k != nil && (lookThrough(root) == lookThrough(k) || root == k) {
+						okKey = true
+					}
+					if fRK := P.Field("transport", "SessionState", "readKey"); fRK != nil && endsInField(nc.Call.Args[0], fRK, true) {
 						okKey = true
 					}
 				}
 			}
-			c.Check(okKey, "C03.R2", FuncName(rd)+"#key", P.InstrPos(call), "AEAD keyed with the key parameter", "the AEAD is not keyed with readPacketLocked's key parameter")
+			c.Check(okKey, "C03.R2", FuncName(rd)+"#key", P.InstrPos(call), "AEAD keyed with the session read key (parameter or ss.readKey)", "the AEAD is not keyed with readPacketLocked's key (its key parameter, or ss.readKey)")
 			fresh := false
 			if nc, _ := fromCall(call.Call.Value); nc != nil && calleeID(nc) == hopID("kravatte", "", "NewSANSE") {
 				fresh = true
@@ -369,7 +388,8 @@ func c03R2R5(c *Ctx) {
 		if nc, _ := fromCall(seal.Call.Value); nc != nil && calleeID(nc) == hopID("kravatte", "", "NewSANSE") {
 			fresh = true
 			root, _ := accessPath(nc.Call.Args[0])
-			c.Check(paramIndex(wr, root) == 3, "C03.R2", FuncName(wr)+"#key", P.InstrPos(seal), "AEAD keyed with the key parameter", "the sealing AEAD is not keyed with sealPacketLocked's key parameter")
+			kW := sessionKeyIn(P, wr)
+			c.Check(kW != nil && (lookThrough(root) == lookThrough(kW) || root == kW), "C03.R2", FuncName(wr)+"#key", P.InstrPos(seal), "AEAD keyed with the key parameter", "the sealing AEAD is not keyed with sealPacketLocked's key parameter")
 		}
 		c.Check(fresh, "C03.R2", FuncName(wr)+"#fresh-aead", P.InstrPos(seal), "a fresh SANSE instance per packet", "the AEAD instance that seals a packet is not created for that packet (SANSE is a stateful session mode; sender and receiver would have to see identical datagram histories forever)")
 	}
@@ -419,7 +439,17 @@ func c03R2R5(c *Ctx) {
 			if paramIndex(wr, tr(a)) == 1 {
 				isC = true
 			}
-			c.Check(isC, "C03.R5", FuncName(wr)+"#packet-bytes", P.InstrPos(call), "header constant", "a non-constant byte other than the message type is written into the packet header")
+			// a byte of the send counter (the counter written by hand instead of through writeCounter)
+			if cv, ok := a.(*ssa.Convert); ok {
+				x := cv.X
+				if sh, ok := x.(*ssa.BinOp); ok && sh.Op == token.SHR {
+					x = sh.X
+				}
+				if fCnt := P.Field("transport", "SessionState", "count"); fCnt != nil && endsInField(x, fCnt, false) {
+					isC = true
+				}
+			}
+			c.Check(isC, "C03.R5", FuncName(wr)+"#packet-bytes", P.InstrPos(call), "header constant, message type or counter byte", "a byte that is neither a constant, the message type nor part of the send counter is written into the packet header")
 		case "(bytes.Buffer).WriteString", "(bytes.Buffer).ReadFrom", "(bytes.Buffer).WriteRune":
 			nW++
 			c.Fail("C03.R5", FuncName(wr)+"#packet-bytes", P.InstrPos(call), "unexpected kind of write into the packet buffer")
@@ -821,7 +851,15 @@ func checkC15(c *Ctx) {
 			c.Check(okv, "C15.R2", cons+"#after-auth", P.InstrPos(w.Instr), "dominated by the nil edge of readPacketLocked",
 				"the session's peer address is updated on a path where readPacketLocked did not return nil (a forged, corrupted or replayed datagram could redirect traffic)")
 			// same datagram: the stored value is the handler's addr parameter, the opened packet its msg parameter
-			same := w.Kind == "store" && w.Val != nil && paramIndex(w.Fn, w.Val) >= 0 && rp != nil && len(rp.Call.Args) == 4 && paramIndex(w.Fn, rp.Call.Args[2]) >= 0
+			same := w.Kind == "store" && w.Val != nil && paramIndex(w.Fn, w.Val) >= 0 && rp != nil
+			if same {
+				same = false
+				for _, a := range rp.Call.Args {
+					if isByteSlice(a.Type()) && paramIndex(w.Fn, a) >= 0 {
+						same = true // the packet that was opened is the handler's datagram parameter
+					}
+				}
+			}
 			c.Check(same, "C15.R2", cons+"#same-datagram", P.InstrPos(w.Instr), "stores the source address of the datagram that was opened",
 				"the stored address is not the source-address parameter of the datagram that readPacketLocked opened")
 		default:
